@@ -114,6 +114,10 @@ func c17HookOracle(w *World, sig map[string]string, fieldPaths map[string][]stri
 func C17Scenario() *Scenario {
 	return &Scenario{Prop: "C17", Init: func(w *World) {
 		t := w.T
+		if t.Pick(3, "family") == 2 {
+			c17Guest(w)
+			return
+		}
 		s := newRollingSetup(w, RollingOpts{Workers: 3, MaxParents: 3, Customize: true})
 		cfg := s.Cfg
 		// a decorator in the same process, sharing the parent informer (or the
@@ -196,4 +200,50 @@ func C17Scenario() *Scenario {
 				}},
 		}
 	}}
+}
+
+// c17Guests: scenarios of the other properties that C17 re-runs with its own
+// oracles (cache fingerprints after every step, hook requests against the
+// server's history, race detector) in place of theirs.
+var c17Guests = []string{"C01", "C02", "C03", "C04", "C06", "C07", "C08", "C09", "C10", "C11", "C12", "C13", "C14", "C15", "C16", "C20"}
+
+func c17Guest(w *World) {
+	t := w.T
+	g := c17Guests[t.Pick(len(c17Guests), "guest")]
+	Scenarios[g]().Init(w)
+	w.Cfg["guest"] = g
+	sig := map[string]string{"prop": "C17", "guest": g}
+	// only C17's oracles judge this run
+	w.Invariants = []func(w *World) *Violation{CacheFingerprints("C17", sig)}
+	w.PanicProp, w.PanicSig = "", nil
+	batch := []int{0, 150, 400}[t.Pick(3, "batch")]
+	w.Cfg["guestBatch"] = fmt.Sprint(batch)
+	for i := range w.Stages {
+		st := &w.Stages[i]
+		st.Check, st.OnBudget = nil, nil
+		if batch > 0 {
+			p := *FairPolicy
+			if st.Policy != nil {
+				p = *st.Policy
+			}
+			p.Batch = batch
+			st.Policy = &p
+		}
+	}
+	w.Stages = append(w.Stages, Stage{Name: "c17-history", Steps: 1, Check: func(w *World) *Violation {
+		fps := map[string][]string{}
+		for _, c := range w.Store.List(ResCompositeCtl, "") {
+			var paths []string
+			for _, p := range getList(c, "spec", "parentResource", "revisionHistory", "fieldPaths") {
+				if ps, ok := p.(string); ok {
+					paths = append(paths, ps)
+				}
+			}
+			if len(paths) == 0 {
+				paths = []string{"spec"}
+			}
+			fps[mstr(c, "name")] = paths
+		}
+		return c17HookOracle(w, sig, fps)
+	}})
 }
